@@ -110,6 +110,10 @@ def check_curves(ctx, m, cls, M, snr_db, form, rng):
     okb, ber = ctx.call("ber-bounds", m.calcTheoreticalBER, snr_db, detail=tag)
     if not (okc and okb):
         return
+    if isinstance(ser, np.ndarray):
+        ctx.hold("ser-formula", "calcTheoreticalSER", ser)
+    if isinstance(ber, np.ndarray):
+        ctx.hold("ber-bounds", "calcTheoreticalBER", ber)
     x = np.asarray(snr_db, dtype=float).ravel()
     ser_f = np.asarray(ser, dtype=float).ravel()
     ber_f = np.asarray(ber, dtype=float).ravel()
